@@ -17,7 +17,8 @@ RULE = ('in-process runs of one layer (with testSetUp/testTearDown hooks that re
 TRUSTED_BASE = ['io.TextIOWrapper/BytesIO capture streams and the formatter\'s print_std_streams are observed, not modelled in detail: '
                 'only the order of tokens and failure/error headers in the real stdout / stderr is compared']
 ASSUMPTIONS = ['tests write through sys.stdout / sys.stderr (objects looked up at write time), not through file descriptors',
-               'in-process runs only (a child process re-binds sys.stderr by design)']
+               'the stream model (which token goes to which stream, in which order) is compared for in-process runs; for layers run in '
+               'subprocesses (a child re-binds sys.stderr to its stdout by design) only the statement is evaluated, on what the parent prints']
 PHN = {'setUp': (0, 0), 'body': (1, 0), 'tearDown': (3, 0), 'after_redirect': (5, 0)}
 KINDS = [{}, {'body': 'fail'}, {'body': 'error'}, {'deco_skip': True}, {'setUp': 'skip'}, {'body': 'skip'},
          {'xf': True, 'body': 'fail'}, {'xf': True}, {'subs': ['fail', 'ok', 'error']}, {'tearDown': 'error'},
@@ -237,3 +238,58 @@ class ChildBatch:
 
 
 EXTRA_BATCHES = [ChildBatch()]
+
+
+# ---------------------------------------------------------------------------------------------------------------
+# several tests whose captured output is identical: the output of a failing test is shown for that test, however
+# many other tests wrote exactly the same text
+class SameTextBatch:
+    CHK = CHK
+    IMPORTS = IMPORTS
+    SHARD = SHARD
+    CHECK_FN = 'check_same'
+    CASE_TYPE = 'same_case'
+    LABEL = 'same-text'
+    RULE = ('same-text batch: 2..6 tests that all write the same line to stdout and the same line to stderr in setUp, some of them '
+            'failing or erroring, with --buffer: the number of times each line is shown equals the number of failing tests')
+    EXHAUSTIVE = {}
+    OUT, ERR = 'IDENTICAL-STDOUT-LINE', 'IDENTICAL-STDERR-LINE'
+
+    def generate(self, rng, tier, rep):
+        cases = []
+        for _ in range({'quick': 10, 'thorough': 100, 'search': 10}[tier]):
+            tests = []
+            for _ in range(rng.randint(2, 6)):
+                T = dict(rng.choice([{}, {}, {'body': 'fail'}, {'body': 'error'}, {'tearDown': 'error'}]), layer=0)
+                T['writes'] = {'setUp': [['stdout', self.OUT + '\n'], ['stderr', self.ERR + '\n']]}
+                tests.append(T)
+            cases.append({'layers': LAYER, 'tests': tests, 'options': ['--buffer'] + rng.choice([[], ['-v']])})
+        return cases
+
+    def observe(self, cases):
+        return worldrun.run_worlds(cases)
+
+    def nontrivial(self, c):
+        return sum(1 for T in c['tests'] if len(T) > 2) >= 2
+
+    def to_coq(self, c, o):
+        failing = sum(1 for T in c['tests'] if T.get('body') in ('fail', 'error') or T.get('tearDown') == 'error')
+        if o.get('driver_failed'):
+            return '{| sc_failing := %d; sc_out := 0; sc_err := 0; sc_aborted := true |}' % failing
+        return '{| sc_failing := %d; sc_out := %d; sc_err := %d; sc_aborted := %s |}' % (
+            failing, o['stdout'].count(self.OUT), o['stderr'].count(self.ERR), g_bool(o['aborted'] is not None))
+
+    def sample_view(self, c, o):
+        return {'case': c, 'observation': {'stdout_count': o.get('stdout', '').count(self.OUT), 'stderr_count': o.get('stderr', '').count(self.ERR)}}
+
+    def classify(self, case, obs, code, findings):
+        return None
+
+    def shrink_candidates(self, c):
+        ts = c['tests']
+        for i in range(len(ts)):
+            if len(ts) > 1:
+                yield dict(c, tests=ts[:i] + ts[i + 1:])
+
+
+EXTRA_BATCHES = [ChildBatch(), SameTextBatch()]
